@@ -596,7 +596,8 @@ pub fn run(args: &Args) {
     // ---- part 4: all byte strings of length ≤ 2 (≤ 3 thorough) for every type -------------------
     let maxlen = if thorough { 3 } else { 2 };
     for &id in TYPE_IDS {
-        for len in 0..=maxlen {
+        // 3-byte strings (thorough) are streamed through the pool below, not materialised
+        for len in 0..=2u32 {
             for x in 0..(256u32.pow(len)) {
                 let bytes: Vec<u8> = (0..len).map(|i| (x >> (8 * i)) as u8).collect();
                 cases.push(Case { ty: id, bytes, origin: "all strings".into() });
@@ -633,6 +634,24 @@ pub fn run(args: &Args) {
         unconfirmed: u64,
         beyond_cap: u64,
     }
+    let fold = |acc: &mut Acc, i: usize, case: &Case, payload: &[u8], outcome: Outcome| {
+        match &outcome {
+            Outcome::Reply(r) if r[0] == 0 => acc.decoded_ok += 1,
+            Outcome::Reply(r) if r[0] < 4 => acc.rejected += 1,
+            _ => {},
+        }
+        if let Some(v) = judge(case, &outcome) {
+            // every reported violation is repeated in a fresh worker; once a worker thread has
+            // 25 confirmed ones of a class, further ones of that class are only counted
+            if acc.viol.iter().filter(|(_, w)| w.class == v.class).count() >= 25 {
+                acc.beyond_cap += 1;
+            } else if pool::confirmed(&cfg, payload, &outcome) {
+                acc.viol.push((i, v));
+            } else {
+                acc.unconfirmed += 1;
+            }
+        }
+    };
     let accs: Vec<Acc> = pool::run(
         &cfg,
         cases.len(),
@@ -641,28 +660,37 @@ pub fn run(args: &Args) {
             p.extend_from_slice(&cases[i].bytes);
             p
         },
-        |acc: &mut Acc, i, _payload, outcome| {
-            match &outcome {
-                Outcome::Reply(r) if r[0] == 0 => acc.decoded_ok += 1,
-                Outcome::Reply(r) if r[0] < 4 => acc.rejected += 1,
-                _ => {},
-            }
-            if let Some(v) = judge(&cases[i], &outcome) {
-                // every reported violation is repeated in a fresh worker; once a worker thread has
-                // 25 confirmed ones of a class, further ones of that class are only counted
-                if acc.viol.iter().filter(|(_, w)| w.class == v.class).count() >= 25 {
-                    acc.beyond_cap += 1;
-                } else if pool::confirmed(&cfg, _payload, &outcome) {
-                    acc.viol.push((i, v));
-                } else {
-                    acc.unconfirmed += 1;
-                }
-            }
-        },
+        |acc: &mut Acc, i, payload, outcome| fold(acc, i, &cases[i], payload, outcome),
     );
+    // thorough: every 3-byte string for every type, generated from the case index
+    let per = 256usize.pow(3);
+    let streamed = if thorough { TYPE_IDS.len() * per } else { 0 };
+    let base = cases.len();
+    let accs3: Vec<Acc> = if thorough {
+        pool::run(
+            &cfg,
+            streamed,
+            |i| {
+                let id = TYPE_IDS[i / per];
+                let x = i % per;
+                let bytes = [x as u8, (x >> 8) as u8, (x >> 16) as u8];
+                if codec::decode(&ty_of(id), &bytes) == Err(RefErr::Unbounded) {
+                    vec![]
+                } else {
+                    vec![id, bytes[0], bytes[1], bytes[2]]
+                }
+            },
+            |acc: &mut Acc, i, payload, outcome| {
+                let case = Case { ty: payload[0], bytes: payload[1..].to_vec(), origin: "all strings".into() };
+                fold(acc, base + i, &case, payload, outcome)
+            },
+        )
+    } else {
+        vec![]
+    };
     let mut viol: Vec<(usize, Violation)> = vec![];
     let (mut ok, mut rej, mut unconfirmed, mut beyond_cap) = (0, 0, 0, 0u64);
-    for a in accs {
+    for a in accs.into_iter().chain(accs3) {
         unconfirmed += a.unconfirmed;
         beyond_cap += a.beyond_cap;
         viol.extend(a.viol);
@@ -673,8 +701,8 @@ pub fn run(args: &Args) {
     report.violations(viol.into_iter().map(|(_, v)| v));
     report.part(
         "malformed and arbitrary encodings (isolated workers)",
-        cases.len() as u64,
-        cases.len() as u64,
+        (cases.len() + streamed) as u64,
+        (cases.len() + streamed) as u64,
         json!({"decoded_to_a_value": ok, "rejected_with_error": rej, "worker_address_space_kib": cfg.mem_kib, "watchdog_s": cfg.timeout.as_secs(),
             "outcomes_not_repeated_by_a_fresh_worker_and_therefore_discarded": unconfirmed,
             "valid_encodings_of_more_than_2^16_empty_elements_not_executed": skipped_unbounded,
